@@ -1125,8 +1125,11 @@ class StateEngine(object):
 
                 # If has_terminated acknowledge the event and don't add the
                 # id to the event_ids list
+                # The event is dropped here whatever the type of its state,
+                # so it is acknowledged for Parallel and Map states too (they
+                # would otherwise have acknowledged it themselves later).
+                self.event_dispatcher.acknowledge(id)
                 if state_type != "Parallel" and state_type != "Map":
-                    self.event_dispatcher.acknowledge(id)
                     event_ids[index] = None
 
                 self.check_pending_results(execution_arn)
